@@ -469,8 +469,8 @@ def gen_arp_nd_echo(runner, tier, seed):
             fr.append(eth(b"\xff" * 6, CMAC, 0x0806, arp(1, CMAC, C4, "00:00:00:00:00:00", t4)))
             fr.append(Peer(CMAC, SMAC, C4, t4).echo(1, 2, b"multi"))
         s.send(fr)
-    for cfg in (cfg_plain(), cfg_self()):
-        s = runner.session(cfg, "arp/nd/echo self=%s" % (cfg.self_ips,))
+    for cfg in (cfg_plain(), cfg_self(), cfg_plain(level=4)):
+        s = runner.session(cfg, "arp/nd/echo self=%s verbosity=%d" % (cfg.self_ips, cfg.level))
         cm = mac(CMAC)
         fr = []
         ops = list(range(0, 17)) + [r.randrange(65536) for _ in range(20)] if tier == "quick" else list(range(65536))
@@ -741,7 +741,7 @@ def gen_tcp_gate(runner, tier, seed):
     r = rng_for(seed, "C07")
     rounds = 6 if tier == "quick" else 60
     for rd in range(rounds):
-        s = runner.session(cfg_plain(key=KEYS[rd % 3]), "tcp gate round %d" % rd)
+        s = runner.session(cfg_plain(key=KEYS[rd % 3], level=4 if rd % 3 == 2 else 0), "tcp gate round %d" % rd)
         peers = [peer4(), peer6(), Peer(CMAC, SMAC, rand_ip4(r), rand_ip4(r)), Peer(CMAC, SMAC, rand_ip6(r), rand_ip6(r))]
         isns = [0, 1, 0x7fffffff, 0x80000000, 0xfffffffe, 0xffffffff, 0xfffffff0]
         flows = [Flow(r.choice(peers), 1024 + i, r.choice([22, 80, 111, 445, r.randrange(65536)]), r.choice(isns + [r.randrange(1 << 32)]))
@@ -1032,6 +1032,11 @@ def send_payloads(runner, label, payloads, r, tier, cfg=None, tcp=True, udp=True
                 port[0] += 1
                 flows.append((r.choice([p4, p6]) if v6 else p4, port[0], r.randrange(65536), r.randrange(1 << 32), [pl]))
             tcp_batch(s, flows)
+    if cfg is None and payloads:
+        # what is printed for diagnosis must not change the outcome: a sample again with every
+        # diagnostic level enabled (debug!/info!/warn! arguments are only evaluated then)
+        sample = list(payloads) if len(payloads) <= 60 else r.sample(list(payloads), 60 if tier == "quick" else 600)
+        send_payloads(runner, label + " (verbosity 4)", sample, r, tier, cfg=cfg_plain(level=4), tcp=tcp, udp=udp, v6=v6)
     return s
 
 
@@ -1292,6 +1297,8 @@ def gen_rpc(runner, tier, seed):
         p = r.choice([peer4(), peer6(), Peer(CMAC, SMAC, rand_ip4(r), rand_ip4(r)), Peer(CMAC, SMAC, rand_ip6(r), rand_ip6(r))])
         fr.append(p.udp(r.randrange(65536), r.choice([111, 0, 65535, r.randrange(65536)]), rpc_call(x, prog, v, pr, cred, verf, args)))
     s.send(fr)
+    s = runner.session(cfg_plain(level=4), "rpc udp (verbosity 4)")
+    s.send(fr[::5])
     s = runner.session(cfg_plain(), "rpc tcp")
     flows = []
     for i, (x, prog, v, pr, cred, verf) in enumerate(calls if tier != "quick" else calls[::3]):
